@@ -204,14 +204,21 @@ def flushWouldFail (f : FileSt) (tx : TxSt) : Bool :=
     | some p => !p.new_ && p.id == p.ondisk && (walAlloc f.alloc tx.ta).isNone
     | none => false)
 
+/-- copy one overwrite page back to its original page and release it -/
+def ckptOne (s : FileSt × TxSt) (e : Nat × Nat) : FileSt × TxSt :=
+  ({ s.1 with disk := s.1.disk.set e.1 (s.1.diskAt e.2) }, freeWalId s.2 e.1 e.2)
+
+/-- the entries of the committed mapping a checkpoint copies back: all but pages that are dirty
+    in this transaction (their overwrite page is released when they are flushed) -/
+def ckptTodo (f : FileSt) (tx : TxSt) : Assoc Nat :=
+  f.walMap.filter (fun e => match tx.pages.get? e.1 with | some p => !p.dirty | none => true)
+
 /-- `Tx.doCheckpointWAL`: copy overwrite pages back, release them -/
 def doCheckpoint (f : FileSt) (tx : TxSt) : FileSt × TxSt × List (Nat × Nat) :=
   if tx.checkpoint then (f, tx, []) else
-  let todo := f.walMap.filter (fun (id, _) => match tx.pages.get? id with | some p => !p.dirty | none => true)
-  if todo.isEmpty then (f, tx, []) else
-  let (f, tx) := todo.foldl (fun (f, tx) (id, w) =>
-      ({ f with disk := f.disk.set id (f.diskAt w) }, freeWalId tx id w)) (f, tx)
-  (f, { tx with checkpoint := true }, todo)
+  if (ckptTodo f tx).isEmpty then (f, tx, []) else
+  let r := (ckptTodo f tx).foldl ckptOne (f, tx)
+  (r.1, { r.2 with checkpoint := true }, ckptTodo f tx)
 
 def TxSt.walUpdated (tx : TxSt) : Bool := !tx.walFree.isEmpty || !tx.walNew.isEmpty
 
